@@ -1,5 +1,7 @@
 import Keto.Model.Engine
 import Keto.Spec.Membership
+import Keto.Spec.Fuel
+import Keto.Spec.WellFormed
 import Keto.Generated.Facts
 import Driver.Tok
 
@@ -117,19 +119,19 @@ def cfgSize (nss : List Namespace) : Nat :=
   nss.foldl (fun acc n => n.relations.foldl (fun a r =>
     a + 1 + (match r.rewrite with | some rw => childSize (.rewrite rw.op rw.children) | none => 0)) acc) 0
 
-def Keto.Child.hasNot : Child → Bool
+def childHasNot : Child → Bool
   | .computed _ => false
   | .ttu _ _ => false
   | .rewrite _ cs => anyNot cs
   | .invert _ => true
 where anyNot : List Child → Bool
   | [] => false
-  | c :: cs => Keto.Child.hasNot c || anyNot cs
+  | c :: cs => childHasNot c || anyNot cs
 
 def cfgHasNot (nss : List Namespace) : Bool :=
   nss.any fun n => n.relations.any fun r =>
     match r.rewrite with
-    | some rw => Keto.Child.hasNot (.rewrite rw.op rw.children)
+    | some rw => childHasNot (.rewrite rw.op rw.children)
     | none => false
 
 def handleEngine (toks : List String) : String :=
@@ -143,9 +145,9 @@ def handleEngine (toks : List String) : String :=
     let E : Env := { cfg := cfg, strict := c.strict, maxWidth := c.width, T := c.tuples, fails := fails,
                      pageSize := pageSize }
     let size := cfgSize c.nss
-    -- every recursion of the engine consumes depth or descends in the rewrite
+    -- proven sufficient (`check_no_diverge`, `check_fuel_irrelevant`): above this bound fuel is irrelevant
     let d := effDepth c.rdepth c.gdepth
-    let fuel := (d.toNat + 2) * (size + 4) + 8
+    let fuel := checkFuel cfg d + 1
     let rw := check E c.gdepth fuel c.query c.rdepth
     -- fault-free run (for the C03 oracle)
     let E0 : Env := { E with fails := fun _ => false }
@@ -153,6 +155,6 @@ def handleEngine (toks : List String) : String :=
     let nodes := (c.tuples.length + 2) * (size + c.tuples.length + 2)
     let rfuel := nodes * (size + 3) + 16
     let ref := refEval cfg c.tuples rfuel [] 0 (.node c.query)
-    s!"res={resStr rw.1}\tref={rvStr ref}\tlim={rw.2.limitHits}\tcalls={rw.2.calls}\tres0={resStr rw0.1}\tlim0={rw0.2.limitHits}\tcalls0={rw0.2.calls}\tconf={if conforms cfg c.tuples then 1 else 0}\tneg={if cfgHasNot c.nss then 1 else 0}\tstrict={if c.strict then 1 else 0}"
+    s!"res={resStr rw.1}\tref={rvStr ref}\tlim={rw.2.limitHits}\tcalls={rw.2.calls}\tres0={resStr rw0.1}\tlim0={rw0.2.limitHits}\tcalls0={rw0.2.calls}\tconf={if conforms cfg c.tuples then 1 else 0}\tneg={if cfgHasNot c.nss then 1 else 0}\tstrict={if c.strict then 1 else 0}\twf={if wellFormedB cfg c.tuples then 1 else 0}\tqdecl={match astRelationFor cfg c.query.ns c.query.rel with | .rel _ => 1 | _ => 0}"
 
 end Driver
